@@ -169,9 +169,10 @@ Theorem trim_repaired_mutations : forall t t',
                   (filter (fun m => kept smask (m_site m)) (t_muts t)).
 Proof. exact trim_repaired_mutations_lemma. Qed.
 
-(* the code as it exists today: the same shift, but every edge and migration row comes out
-   with EMPTY metadata (finding F7); topology is still preserved *)
-Theorem ltrim_current_erases_metadata : forall t t',
+(* historical record, about [ltrim] = the model of the PINNED commit 380c75d (before fix
+   02a6537), not about the current code: the same shift, but every edge and migration row
+   comes out with EMPTY metadata (F7); topology is still preserved *)
+Theorem ltrim_pinned_erases_metadata : forall t t',
   ltrim t = Ok t' ->
   let d := leftmost t in
   t_edges t' = map (shift_edge false d) (t_edges t) /\
@@ -181,21 +182,21 @@ Theorem ltrim_current_erases_metadata : forall t t',
   (forall x c p, (exists md, edge_at (t_edges t') (x - d) c p md) <-> (exists md, edge_at (t_edges t) x c p md)).
 Proof. exact ltrim_current_lemma. Qed.
 
-(* F7: trim_shift is FALSE for the code as it exists *)
-Theorem ltrim_drops_edge_metadata_refuted :
+(* F7, pinned variant only: trim_shift was FALSE before fix 02a6537 *)
+Theorem ltrim_drops_edge_metadata_pinned_refuted :
   exists t t' e, ltrim t = Ok t' /\ In e (t_edges t) /\ e_md e <> [] /\
                  ~ In (shift_edge true (leftmost t) e) (t_edges t') /\
                  (forall e', In e' (t_edges t') -> e_md e' = []).
 Proof. exact ltrim_drops_edge_metadata_refuted_lemma. Qed.
 
-Theorem ltrim_drops_migration_metadata_refuted :
+Theorem ltrim_drops_migration_metadata_pinned_refuted :
   exists t t' g, ltrim t = Ok t' /\ In g (t_migs t) /\ g_md g <> [] /\
                  (forall g', In g' (t_migs t') -> g_md g' = []).
 Proof. exact ltrim_drops_migration_metadata_refuted_lemma. Qed.
 
-(* F14: _check_trim_conditions (`and`) lets a migration left of the leftmost edge through;
-   it ends up at a negative coordinate.  The repaired check refuses the same input. *)
-Theorem trim_accepts_migration_outside_edges_refuted :
+(* F14, pinned variant only (before fix 6e8c552): `and` let a migration left of the leftmost
+   edge through; it ended up at a negative coordinate.  The repaired check refuses it. *)
+Theorem trim_accepts_migration_outside_edges_pinned_refuted :
   exists t t' g', ltrim t = Ok t' /\ In g' (t_migs t') /\ g_left g' < 0 /\
                   ltrim_repaired t = Err 1.
 Proof. exact trim_accepts_migration_outside_edges_refuted_lemma. Qed.
@@ -208,6 +209,24 @@ Theorem ltrim_current_is_repaired :
   C11_trim_check_uses_or = true ->
   ltrim_current = ltrim_repaired /\ rtrim_current = rtrim_repaired /\ trim_current = trim_repaired.
 Proof. exact ltrim_current_is_repaired_lemma. Qed.
+
+(* /repo HEAD carries the repairs (facts regenerated on every run): the model compared with the
+   implementation is the repaired one, and trim_shift holds for it.  Both stop checking if a
+   repair is lost. *)
+Theorem current_trim_is_repaired :
+  ltrim_current = ltrim_repaired /\ rtrim_current = rtrim_repaired /\ trim_current = trim_repaired.
+Proof. exact current_is_repaired_now_lemma. Qed.
+
+Theorem trim_shift_current : forall t t',
+  ltrim_current t = Ok t' ->
+  let d := leftmost t in
+  t_L t' = t_L t - d /\ t_nodes t' = t_nodes t /\
+  t_edges t' = map (shift_edge true d) (t_edges t) /\
+  t_migs t' = map (shift_mig true d) (t_migs t) /\
+  (forall g', In g' (t_migs t') -> 0 <= g_left g') /\
+  t_sites t' = map (shift_site d) (filter (fun s => d <=? s_pos s) (t_sites t)) /\
+  (forall x c p md, edge_at (t_edges t') (x - d) c p md <-> edge_at (t_edges t) x c p md).
+Proof. exact trim_shift_current_lemma. Qed.
 
 Theorem ltrim_current_is_pinned :
   C11_ltrim_passes_edge_metadata = false -> C11_ltrim_passes_migration_metadata = false ->
